@@ -163,3 +163,4 @@ pub fn guarded<T>(f: impl FnOnce() -> T) -> Result<T, String> {
 pub mod rm;
 pub mod walk;
 pub mod dumpgen;
+pub mod corpus;
